@@ -5,6 +5,13 @@ V = os.path.dirname(os.path.dirname(os.path.abspath(__file__)))
 ALL = ["C%02d" % i for i in range(1, 21)]
 
 CLAIMED = {
+ "C12": dict(
+   level="exploration",
+   text="Hostile-content profile: conformant structure, C11's expression pool (grammar-derived, mutated, known nasty sources) in every expression position, odd host events (empty / dotted / done.invoke.* / trace.* names, unknown invoke ids, error / source / nested payloads) and 0-3 platform faults per case from 14 kinds (unknown session, malformed target, unknown invoke id, #_parent without parent, unsupported type, illegal delays, delay with #_internal, unknown scheme, four kinds of unstartable invokes). Oracle: no panic on the session thread, the final __ping is answered, the session ends on cancel in time, and each send fault's macrostep dequeues the error event the Recommendation assigns.",
+   design="6/C12",
+   note="Generated machines have no eventless, wildcard or error.* transitions, so a session that does not come back is wedged by the platform and not by its own document. 8 s limit per session (normal ~2 ms), confirmed alone by the engine's watchdog logic for process-level stalls.",
+   technique="property-based robustness fuzzing (hostile content + fault injection) with liveness probe (ping) and error-event oracle"),
+
  "C09": dict(
    level="exploration",
    text="Three generators: (1) host events with generated fields/params/content plus raised, #_internal and error events, every handler marks all _event fields: value read == event as dequeued == event as sent; (2) 17 kinds of attempts to modify _sessionid/_name/_ioprocessors/_event (assign, script '=' / '?=', foreach item/index), each in its own macrostep: error.execution dequeued, rest of block skipped, values unchanged afterwards; (3) statecharts with per-state data under early and late binding whose marks read variables and In() in onentry/onexit/transition bodies at partially updated configurations, against the reference interpreter. rfsm-expression and strict ECMAScript.",
